@@ -24,13 +24,25 @@ A case is the JSON-able tuple ``(entry, sparse, processors, entities)`` or
     sparse      true: empty 'args'/'kwargs'/'components'/'processors'/
                 'entities' keys are omitted; false: written as []/{}
     processors  [[ 'A', args, kwargs ] | [ 'B', [], {} ], ...]
+                (or [ 'C', [], {} ]: ProcB2, a subclass of ProcB)
     entities    [[ id | null, [[ 'P', args, kwargs ] | [ 'H', [], {} ], ...]]]
     steps       (optional; absent in the older 4-tuple form = []) what happens
-                after the first load and its checks.  ['reload'] (file entries
-                whose description holds a $res{} / $handle{} marker): a fresh
-                resource handle is assigned at root key 'a/b', the world
-                handle is cleared and loaded again, and the second world is
-                checked against the tree as it is *now*.
+                around the first load and its checks, in this order:
+                at most one of 'customise_other_before' /
+                'customise_other_after' (file entries whose description holds
+                the pass-through string "$notref"): ANOTHER
+                WorldFromFileHandle on the same file is created - before /
+                after the handle under test is constructed, always before it
+                loads - and a custom dict transformer that rewrites every
+                string argument starting with "$notref" is appended in place
+                to the dict transformers of ITS WorldFromFileTransformer; the
+                other handle is then dropped (never loaded, never stored).
+                The handle under test must load exactly as without it.
+                'reload' (file entries whose description holds a $res{} /
+                $handle{} marker): after the first load and its checks a
+                fresh resource handle is assigned at root key 'a/b', the
+                world handle is cleared and loaded again, and the second
+                world is checked against the tree as it is *now*.
 
 The strings in ``args``/``kwargs`` are the literal JSON values written to the
 file.  For the two ``dict`` entries (real types, nothing is resolved there)
@@ -71,7 +83,9 @@ V_RES = '$res{a.b}'
 V_HANDLE = '$handle{a.b}'
 V_NOT_START = 'x ' + V_OBJ
 V_NESTED = [V_OBJ]
-# outside the 13-value menu, own part ('extra-forms')
+V_EMPTY = ''                          # the empty string: passes through
+V_DOLLAR = '$notref'
+# outside the 14-value menu, own part ('extra-forms')
 V_MARKTXT = '${%s.MARKTXT}' % MOD     # a str object whose text is '$res{a.b}'
 V_LOCK = '${%s.LOCK}' % MOD           # a threading.Lock(): not deep-copyable
 V_MODULE = '${%s}' % SUB              # a module object: not deep-copyable
@@ -83,10 +97,11 @@ def jkey(value):
 
 # menu value -> kind.  Kinds are also the names of the shortcut counters and
 # the ``form`` feature of violation signatures.
-MENU = [1, 1.5, None, 'plain', '$notref', V_NOT_START, V_NESTED, {'k': 'v'},
-        V_OBJ, V_ATTR, V_SUB, V_RES, V_HANDLE]
+MENU = [1, 1.5, None, 'plain', V_EMPTY, V_DOLLAR, V_NOT_START, V_NESTED,
+        {'k': 'v'}, V_OBJ, V_ATTR, V_SUB, V_RES, V_HANDLE]
 KINDS = ['int_passthrough', 'float_passthrough', 'null_passthrough',
-         'plain_string', 'dollar_not_marker', 'marker_not_at_start',
+         'plain_string', 'empty_string', 'dollar_not_marker',
+         'marker_not_at_start',
          'nested_list_passthrough', 'dict_passthrough',
          'object_ref', 'attr_ref', 'package_ref', 'res_ref', 'handle_ref']
 EXTRA_MENU = [V_MARKTXT, V_LOCK, V_MODULE]
@@ -111,7 +126,26 @@ WORLD_KEY = {'dict_handle': 'w', 'file_root': 'w',
 # the ``entities`` of a case; the id is in no id menu)
 EXTRA_ENTITY = ['hud', [['H', [], {}]]]
 RELOAD = 'reload'
-STEPS = (RELOAD, )
+OTHER_BEFORE = 'customise_other_before'
+OTHER_AFTER = 'customise_other_after'
+ISOLATION_STEPS = (OTHER_BEFORE, OTHER_AFTER)
+STEPS = ISOLATION_STEPS + (RELOAD, )
+# what the custom dict transformer of the OTHER handle makes of "$notref..."
+REWRITTEN = 'rewritten by the dict transformer of another handle'
+
+
+def notref_rewriter(world_handle, world, initial_dict, passthrough_dict):
+    """Project specific dict transformer (signature of the stock ones): every
+    string argument starting with "$notref" is replaced."""
+    def map_function(arg):
+        if isinstance(arg, str) and arg.startswith(V_DOLLAR):
+            return REWRITTEN
+        return arg
+
+    args_list = passthrough_dict.get('args', [])
+    kwargs_map = passthrough_dict.get('kwargs', {})
+    args_list[:] = map(map_function, args_list)
+    kwargs_map.update({k: map_function(v) for k, v in kwargs_map.items()})
 
 
 # --------------------------------------------------------------------------
@@ -199,9 +233,15 @@ class ProcB(desper.Processor):
         pass
 
 
-TYPES = {'P': Plain, 'H': Hnd, 'A': ProcA, 'B': ProcB}
+class ProcB2(ProcB):
+    """A processor whose type is a subclass of another listed type."""
+
+
+TYPES = {'P': Plain, 'H': Hnd, 'A': ProcA, 'B': ProcB, 'C': ProcB2}
 TYPE_STRINGS = {'P': MOD + '.Plain', 'H': MOD + '.Hnd',
-                'A': MOD + '.ProcA', 'B': MOD + '.ProcB'}
+                'A': MOD + '.ProcA', 'B': MOD + '.ProcB',
+                'C': MOD + '.ProcB2'}
+PROC_TAGS = ('A', 'B', 'C')
 
 _SCRATCH = None          # private directory for the generated JSON files
 _COUNTER = itertools.count()
@@ -226,6 +266,7 @@ class Harness:
         del _CREATED[:]
         self.own_scratch = None
         self.filename = None
+        self.customised = []
 
         mod = types.ModuleType(MOD)
         pkg = types.ModuleType(PKG)
@@ -258,6 +299,18 @@ class Harness:
         return self
 
     def __exit__(self, *exc):
+        # cases stay independent of each other even on a tree where the
+        # sequence is shared between handles: what this case appended to the
+        # OTHER handle's sequence is taken out of that same sequence again
+        # (nothing of desper is touched; on the unchanged tree the sequence
+        # dies with the other handle anyway)
+        for seq in self.customised:
+            try:
+                while notref_rewriter in seq:
+                    seq.remove(notref_rewriter)
+            except Exception:
+                pass
+        del self.customised[:]
         for name in _MODULE_NAMES:
             sys.modules.pop(name, None)
         object_from_string.cache_clear()
@@ -301,6 +354,33 @@ class Harness:
         self.h_ab_old = self.h_ab
         self.h_ab = ResHandle('a/b (second)')
         self.root['a/b'] = self.h_ab
+
+    def customise_other_handle(self, filename):
+        """ANOTHER WorldFromFileHandle on the same file gets a custom dict
+        transformer, in place (the only way the API offers); the handle is
+        dropped afterwards: never loaded, never stored in the tree."""
+        probe = {'type': None, 'args': [V_DOLLAR, 'plain', 1],
+                 'kwargs': {'k': V_DOLLAR + '{x}'}}
+        notref_rewriter(None, None, copy.deepcopy(probe), probe)
+        if probe != {'type': None, 'args': [REWRITTEN, 'plain', 1],
+                     'kwargs': {'k': REWRITTEN}}:
+            raise HarnessError('the custom dict transformer does not rewrite')
+        other = desper.WorldFromFileHandle(filename)
+        file_transformers = [
+            f for f in other.transform_functions
+            if isinstance(f, desper.WorldFromFileTransformer)]
+        if len(file_transformers) != 1:
+            raise HarnessError('a stock WorldFromFileHandle has '
+                               f'{len(file_transformers)} file transformers')
+        target = file_transformers[0]
+        try:
+            target.dict_transformers.append(notref_rewriter)
+        except AttributeError:      # an immutable sequence: give it its own
+            target.dict_transformers = (list(target.dict_transformers)
+                                        + [notref_rewriter])
+        if notref_rewriter not in target.dict_transformers:
+            raise HarnessError('the other handle was not customised')
+        self.customised.append(target.dict_transformers)
 
     def write(self, description):
         global _SCRATCH
@@ -412,6 +492,15 @@ def has_resource_ref(procs, ents):
     return False
 
 
+def has_dollar_passthrough(procs, ents):
+    """The description holds the pass-through string "$notref"."""
+    for _, args, kwargs in list(procs) + [c for _, cs in ents for c in cs]:
+        for v in list(args) + list(kwargs.values()):
+            if KIND_OF.get(jkey(v)) == 'dollar_not_marker':
+                return True
+    return False
+
+
 # --------------------------------------------------------------------------
 def split_case(case):
     """-> (entry, sparse, procs, ents, steps); the 4-tuple form of older
@@ -426,10 +515,19 @@ def split_case(case):
         raise HarnessError(f'unknown entry {entry!r}')
     if not isinstance(steps, list) or any(s not in STEPS for s in steps):
         raise HarnessError(f'unknown steps {steps!r}')
-    if steps and not (entry.startswith('file')
-                      and has_resource_ref(procs, ents)):
+    order = [STEPS.index(s) for s in steps]
+    if order != sorted(set(order)) or len(
+            [s for s in steps if s in ISOLATION_STEPS]) > 1:
+        raise HarnessError(f'steps {steps!r}: at most one isolation step, '
+                           'then at most one reload')
+    if RELOAD in steps and not (entry.startswith('file')
+                                and has_resource_ref(procs, ents)):
         raise HarnessError(f'steps {steps!r} need a file entry and a '
                            '$res{} / $handle{} marker')
+    if set(steps) & set(ISOLATION_STEPS) and not (
+            entry.startswith('file') and has_dollar_passthrough(procs, ents)):
+        raise HarnessError(f'steps {steps!r} need a file entry and a '
+                           '"$notref" argument')
     return entry, sparse, procs, ents, steps
 
 
@@ -445,6 +543,10 @@ def _check_world_case(h, entry, sparse, procs, ents, steps, key):
     extra = entry == EXTRA_ENTRY
     feat = dict(entry=(EXTRA_ENTRY if extra else 'file') if is_file
                 else entry, placement=PLACEMENT[entry])
+    isolation = [s for s in steps if s in ISOLATION_STEPS]
+    steps = [s for s in steps if s not in ISOLATION_STEPS]
+    if isolation:
+        feat['phase'] = 'other_handle_customised'
     hits = collections.Counter()
     calls = 0
     # what the world must contain: the description, plus what the further
@@ -472,7 +574,11 @@ def _check_world_case(h, entry, sparse, procs, ents, steps, key):
     else:
         if is_file:
             filename = h.write(h.describe(procs, ents, sparse, as_file=True))
+            if OTHER_BEFORE in isolation:
+                h.customise_other_handle(filename)
             handle = desper.WorldFromFileHandle(filename)
+            if OTHER_AFTER in isolation:
+                h.customise_other_handle(filename)
             if extra:
                 more = h.describe([], [EXTRA_ENTITY], True, as_file=False)
                 handle.transform_functions.append(
@@ -582,6 +688,19 @@ def _check_world_case(h, entry, sparse, procs, ents, steps, key):
             hits['extra_transform_after_file_handler'] += 1
     if not sparse:
         hits['empty_keys_written'] += 1
+    if isolation:
+        # (all clauses passed: the "$notref" arguments arrived unchanged)
+        hits['other_handle_customised'] += 1
+        hits['other_handle_customised_first' if OTHER_BEFORE in isolation
+             else 'other_handle_customised_later'] += 1
+    tags = [p[0] for p in procs]
+    if 'C' in tags:
+        hits['subclass_processor'] += 1
+        if 'B' in tags:
+            hits['subclass_processor_before_base' if tags.index('C')
+                 < tags.index('B') else 'base_processor_before_subclass'] += 1
+            if 'A' in tags:
+                hits['subclass_and_base_next_to_unrelated_processor'] += 1
     return {'calls': calls, 'hits': dict(hits), 'key': key}
 
 
@@ -754,7 +873,7 @@ def _check_args(h, spec, inst, where, fail, hits, is_file):
     """The instance received exactly the expected positional and keyword
     values: identity for resolved objects, equality + type otherwise."""
     tag, args, kwargs = spec
-    carrier = 'processor' if tag in 'AB' else 'component'
+    carrier = 'processor' if tag in PROC_TAGS else 'component'
     if len(inst.args) != len(args):
         fail('arg_count', f'{where}: expected {len(args)} positional '
              f'arguments, received {short(inst.args)}', carrier)
@@ -876,6 +995,20 @@ def with_steps(entry, sparse, procs, ents):
     return (entry, sparse, procs, ents, steps)
 
 
+def with_isolation(cases):
+    """Every case, and after each case of a file entry whose description
+    holds "$notref" the same case twice more: another handle on the same
+    file customised before / after the handle under test is constructed."""
+    out = []
+    for case in cases:
+        out.append(case)
+        entry, sparse, procs, ents, steps = case
+        if entry.startswith('file') and has_dollar_passthrough(procs, ents):
+            for iso in ISOLATION_STEPS:
+                out.append((entry, sparse, procs, ents, [iso] + steps))
+    return out
+
+
 def argument_cases(shapes, entries):
     cases = []
     for args, kwargs in shapes:
@@ -887,7 +1020,7 @@ def argument_cases(shapes, entries):
                 else:
                     cases.append(with_steps(entry, True,
                                             [['A', args, kwargs]], []))
-    return cases
+    return with_isolation(cases)
 
 
 def extra_cases():
@@ -903,6 +1036,7 @@ def extra_cases():
 A0 = ['A', [], {}]
 A1 = ['A', [V_ATTR, V_NOT_START], {}]
 B0 = ['B', [], {}]
+C0 = ['C', [], {}]                  # ProcB2, a subclass of ProcB
 P0 = ['P', [1], {}]
 P1 = ['P', [V_OBJ], {'k': V_RES}]
 P2 = ['P', [V_HANDLE, V_NESTED], {'k': V_SUB}]
@@ -914,6 +1048,16 @@ def processor_lists(variants):
     out = [[]]
     out += [[a] for a in variants] + [[B0]]
     out += [[a, B0] for a in variants] + [[B0, a] for a in variants]
+    return out
+
+
+def subclass_processor_lists(variants):
+    """Every ordered sub-list (every subset in every order) of {ProcA
+    variant, ProcB, ProcB2} that contains ProcB2."""
+    out = []
+    for others in [[]] + [[B0]] + [[a] for a in variants] + [
+            [a, B0] for a in variants]:
+        out += [list(p) for p in itertools.permutations(others + [C0])]
     return out
 
 
@@ -966,7 +1110,8 @@ def families(tier):
         fam['arguments'] = (
             run_world_case, argument_cases(shapes, ENTRIES),
             dict(mode='slot-wise', menu=MENU, others=small,
-                 carriers=['component', 'processor'], entries=ENTRIES))
+                 carriers=['component', 'processor'], entries=ENTRIES,
+                 isolation_steps=list(ISOLATION_STEPS)))
         fam['extra-forms'] = (run_world_case, extra_cases(),
                               dict(menu=EXTRA_MENU))
         fam['structure'] = (
@@ -978,11 +1123,22 @@ def families(tier):
                  components='<= 2 distinct of P1, H in both orders',
                  ids=IDS, max_entities=2, A1=A1, P1=P1, entries=ALL_ENTRIES,
                  extra_entity=EXTRA_ENTITY))
+        fam['processor-subclass'] = (
+            run_world_case,
+            structure_cases(subclass_processor_lists([A1]),
+                            entity_lists(component_lists([P1]), 1),
+                            [True, False], ALL_ENTRIES),
+            dict(processors='every ordered sub-list of {A1, B, B2} that '
+                 'contains B2 (ProcB2 is a subclass of ProcB)',
+                 components='<= 2 distinct of P1, H in both orders',
+                 ids=IDS, max_entities=1, A1=A1, P1=P1, entries=ALL_ENTRIES,
+                 extra_entity=EXTRA_ENTITY))
     else:
         fam['arguments'] = (
             run_world_case, argument_cases(arg_shapes_full(MENU), ENTRIES),
             dict(mode='full product', menu=MENU,
-                 carriers=['component', 'processor'], entries=ENTRIES))
+                 carriers=['component', 'processor'], entries=ENTRIES,
+                 isolation_steps=list(ISOLATION_STEPS)))
         fam['extra-forms'] = (run_world_case, extra_cases(),
                               dict(menu=EXTRA_MENU))
         fam['structure'] = (
@@ -993,6 +1149,16 @@ def families(tier):
             dict(processors='sub-lists of [A0|A1, B] in both orders',
                  components='<= 2 distinct of P0|P1|P2, H in both orders',
                  ids=IDS, max_entities=2, A0=A0, A1=A1, P0=P0, P1=P1, P2=P2,
+                 entries=ALL_ENTRIES, extra_entity=EXTRA_ENTITY))
+        fam['processor-subclass'] = (
+            run_world_case,
+            structure_cases(subclass_processor_lists([A0, A1]),
+                            entity_lists(component_lists([P1]), 2),
+                            [True, False], ALL_ENTRIES),
+            dict(processors='every ordered sub-list of {A0|A1, B, B2} that '
+                 'contains B2 (ProcB2 is a subclass of ProcB)',
+                 components='<= 2 distinct of P1, H in both orders',
+                 ids=IDS, max_entities=2, A0=A0, A1=A1, P1=P1,
                  entries=ALL_ENTRIES, extra_entity=EXTRA_ENTITY))
         fam['structure-3'] = (
             run_world_case,
@@ -1030,7 +1196,19 @@ RULE = (
     'new handle loads, by identity; the other values as before; callbacks '
     'with the second world); such a case contains its single-load case, '
     'which is therefore not listed separately.  '
-    'Argument values: 13-value menu (int, float, null, plain string, '
+    'Every case of part "arguments" with a file entry whose description '
+    'holds the pass-through string "$notref" is listed three times: as it '
+    'is, and with the step "customise_other_before" / '
+    '"customise_other_after" in front: ANOTHER WorldFromFileHandle on the '
+    'same file is created before / after the handle under test is '
+    'constructed (always before it loads), a custom dict transformer that '
+    'rewrites every string argument starting with "$notref" is appended in '
+    'place to the dict_transformers of its WorldFromFileTransformer, and '
+    'the other handle is dropped (never loaded, never stored); the handle '
+    'under test must pass every clause exactly as without it ("$notref" '
+    'arrives as that str).  '
+    'Argument values: 14-value menu (int, float, null, plain string, the '
+    'EMPTY string "", '
     '"$notref", marker not at the start, marker inside a nested list, dict, '
     '${mod.OBJ}, ${mod.Cls.attr}, ${pkg.sub.OBJ}, $res{a.b}, $handle{a.b}).  '
     'Part "arguments": one Plain component of one id-less entity, or one '
@@ -1047,6 +1225,13 @@ RULE = (
     'each with 0-2 distinct component types of {Plain variant, Hnd} in both '
     'orders x empty keys omitted / written x 6 entries; Plain / ProcA '
     'variants are fixed argument lists named in the part parameters.  Part '
+    '"processor-subclass": the same product with processor lists = every '
+    'ordered sub-list (every subset in every order) of {ProcA variant, '
+    'ProcB, ProcB2} that contains ProcB2, a SUBCLASS of ProcB (subclass '
+    'listed before its base, after it, alone, next to the unrelated ProcA), '
+    'x entity lists of 0-1 entities (thorough: 0-2) x empty keys omitted / '
+    'written x 6 entries; expected: exactly the listed processors, each '
+    'exact type once, in the listed order.  Part '
     '"extra-forms": ${name} of a str whose text is "$res{a.b}", of a '
     'threading.Lock and of a module, one argument, positional or keyword, '
     'component or processor, root placement.  Part "object-from-string": 13 '
@@ -1055,13 +1240,16 @@ RULE = (
     'distinct by its JSON text; non-trivial = it passed the oracle while '
     'exercising a named shortcut (reference kinds, id kinds, handler '
     'component, handle placement, further transform function, reload after '
-    'the resource was replaced).')
+    'the resource was replaced, empty string argument, subclass processor '
+    'before / after its base, another handle customised first / later).')
 
 ASSUMPTIONS = [
     'out of the alphabet: malformed markers (unterminated, trailing text '
     'after the closing brace, empty or unresolvable names, paths that name '
     'no handle), duplicate component types within one entity, duplicate '
-    'processor types, duplicate entity ids - an explicit id 1 is only listed '
+    'processor types (two processors of the same exact type; a type and a '
+    'subclass of it are two different types and are in the alphabet: part '
+    'processor-subclass), duplicate entity ids - an explicit id 1 is only listed '
     'before id-less entities -, rebinding a named ${...} python object '
     'between loads (object_from_string is documented as cached; its '
     'lru_cache is cleared around every case, never inside one)',
@@ -1100,6 +1288,19 @@ ASSUMPTIONS = [
     'pass-through values are compared by equality and exact type '
     '(recursively), references by identity; how often the loader copies or '
     'constructs intermediate objects is not asked',
+    'isolation steps: the other handle is a stock WorldFromFileHandle on '
+    'the same file, customised in place through '
+    'transform_functions[...].dict_transformers.append (if the sequence has '
+    'no append, a new list is assigned to that one transformer instead); it '
+    'is never loaded - what a customised handle itself loads is not in the '
+    'statement.  The custom transformer is checked on a literal dictionary '
+    'before use (harness error otherwise).  At the end of the case the '
+    'harness takes its function out of the very sequence it appended to '
+    '(cases stay independent on a tree that shares the sequence); nothing '
+    'of desper is saved, patched or restored.  Isolation steps are confined '
+    'to part "arguments" (entries file_root, file_composite, file_submap)',
+    'the empty string is an argument value like any other str; empty '
+    'dictionary keys / keyword names are not in the menu',
     'named objects of the main menu are deep-copyable instances; objects '
     'that cannot be deep-copied (a lock, a module) and a named str whose '
     'text looks like a resource marker are confined to part extra-forms',
@@ -1126,7 +1327,14 @@ def run(tier, rep):
                      extra_transform_function=1,
                      extra_transform_after_file_handler=1,
                      reload_after_resource_replaced=1,
-                     res_ref_after_replace=1, handle_ref_after_replace=1)
+                     res_ref_after_replace=1, handle_ref_after_replace=1,
+                     empty_string=1, subclass_processor=1,
+                     subclass_processor_before_base=1,
+                     base_processor_before_subclass=1,
+                     subclass_and_base_next_to_unrelated_processor=1,
+                     other_handle_customised=1,
+                     other_handle_customised_first=1,
+                     other_handle_customised_later=1)
     saved = {name: sys.modules.get(name) for name in _MODULE_NAMES}
     _SCRATCH = _make_scratch()
     try:
@@ -1142,6 +1350,7 @@ def run(tier, rep):
         rep.extra['c15_case_forms'] = [
             '(entry, sparse, processors, entities)',
             '(entry, sparse, processors, entities, steps)']
+        rep.extra['c15_steps'] = list(STEPS)
     finally:
         shutil.rmtree(_SCRATCH, ignore_errors=True)
         _SCRATCH = None
@@ -1157,7 +1366,8 @@ def replay(rec):
     part = rec['part']
     if part == 'object-from-string':
         runner = run_ofs_case
-    elif part in ('arguments', 'extra-forms', 'structure', 'structure-3'):
+    elif part in ('arguments', 'extra-forms', 'structure', 'structure-3',
+                  'processor-subclass'):
         runner = run_world_case
     else:
         raise SystemExit(f'unknown part {part}')
